@@ -604,6 +604,8 @@ impl AssemblyCode {
                             flags = FlagsState::Y;
                         }
                         AsmMnemonic::DEC | AsmMnemonic::INC => {
+                            // N and Z now describe the modified memory cell
+                            flags = FlagsState::Unknown;
                             if let Some(v) = &accumulator {
                                 if v.eq(&inst.dasm_operand) {
                                     accumulator = None;
@@ -621,6 +623,7 @@ impl AssemblyCode {
                             }
                         }
                         AsmMnemonic::INX | AsmMnemonic::DEX => {
+                            flags = FlagsState::X;
                             if let Some(v) = &accumulator {
                                 if v.ends_with(",X") {
                                     accumulator = None;
@@ -634,6 +637,7 @@ impl AssemblyCode {
                             x_register = None;
                         }
                         AsmMnemonic::INY | AsmMnemonic::DEY => {
+                            flags = FlagsState::Y;
                             if let Some(v) = &accumulator {
                                 if v.ends_with(",Y") {
                                     accumulator = None;
